@@ -35,7 +35,10 @@ func c17Has(list []*tar.Header, name string) int {
 func Harness_C17_foreign_archive() {
 	// small record sizes put members at every block offset of a record, also the last one
 	rs := []int{20, 2, 3}[vm.Choice("recordSize", 3)]
-	v := verifNewFS(config.PipeConfig{RecordSize: rs}, false, true)
+	// (also through the documented read-only composition, with and without a write backend: everything up to the
+	// first write is the same there)
+	readOnly := vm.Bool("readOnly")
+	v := verifNewFS(config.PipeConfig{RecordSize: rs}, readOnly, !readOnly || vm.Bool("withWriteBackend"))
 	t := v.Env.Tape
 	style := vm.Choice("style", 3)
 	slash := ""
@@ -137,6 +140,11 @@ func Harness_C17_foreign_archive() {
 		}
 	}
 
+	if readOnly {
+		vm.Assert("C17.read_only_open_writes_nothing", t.Appends == 0 && t.WriteOpens == 0)
+		vm.Assert("C17.locks_free", v.Env.LocksFree())
+		return
+	}
 	// coexistence: add a file through the filesystem next to the foreign members
 	newName := prefix + d + "/n"
 	if style != 2 {
